@@ -43,7 +43,7 @@ def generate(tier, seed):
     for length in range(1, L + 1):
         for lo, hi in chunks(0, 6 ** length, 30 if tier == "quick" else 60):
             cases.append({"kind": "enum", "len": length, "lo": lo, "hi": hi, "P": P})
-    for k in range(150 if tier == "quick" else 5000):
+    for k in range(400 if tier == "quick" else 5000):
         cases.append({"kind": "tree", "k": k})
     for k in range(8 if tier == "quick" else 40):
         cases.append({"kind": "order", "k": k})
